@@ -275,12 +275,14 @@ def _steadystate_direct(A, weight, **kw):
 
 
 def _steadystate_eigen(L, **kw):
-    val, vec = (L.dag() @ L).eigenstates(
-        eigvals=1,
-        sort="low",
-        # v4's implementation only uses sparse eigen solver
-        sparse=kw.pop("sparse", True)
-    )
+    # v4's implementation only uses sparse eigen solver
+    sparse = kw.pop("sparse", True)
+    LdL = L.dag() @ L
+    val, vec = LdL.eigenstates(eigvals=1, sort="low", sparse=sparse)
+    if sparse and abs(val[0]) > 1e-8 * _data.norm.max(LdL.data):
+        # ARPACK (no shift-invert) can miss an isolated zero eigenvalue, e.g.
+        # when a column of L is zero: use the dense solver instead.
+        val, vec = LdL.eigenstates(eigvals=1, sort="low", sparse=False)
     rho = vector_to_operator(vec[0])
     return rho / rho.tr()
 
